@@ -371,24 +371,24 @@ func writeEvidence(id, tier string, seed uint64, seeds []uint64, cfg propCfg, m 
 		runWall = 0.001
 	}
 	cov := map[string]any{
-		"evaluations":         m.Runs,
-		"distinct_nontrivial": distinct,
-		"rule":                cfg.Rule,
-		"samples":             samples,
-		"sim_steps":           m.Steps,
-		"sim_time_ns":         m.SimTimeNs,
-		"runs_per_hour":       int(float64(m.Runs) / runWall * 3600),
-		"seeds":               seeds,
-		"workers":             workers,
-		"faults_fired":        m.Faults,
-		"probes":              m.Probes,
-		"distinct_states":     nstates,
+		"evaluations":             m.Runs,
+		"distinct_nontrivial":     distinct,
+		"rule":                    cfg.Rule,
+		"samples":                 samples,
+		"sim_steps":               m.Steps,
+		"sim_time_ns":             m.SimTimeNs,
+		"runs_per_hour":           int(float64(m.Runs) / runWall * 3600),
+		"seeds":                   seeds,
+		"workers":                 workers,
+		"faults_fired":            m.Faults,
+		"probes":                  m.Probes,
+		"distinct_states":         nstates,
 		"distinct_states_measure": cfg.StateRule,
-		"components":          map[string]any{"real": cfg.Real, "stub": cfg.Stub},
-		"shrink_executions":   m.ShrinkExecs,
-		"known_findings_seen": m.Known,
-		"harness_trouble":     trouble,
-		"build_s":             buildS,
+		"components":              map[string]any{"real": cfg.Real, "stub": cfg.Stub},
+		"shrink_executions":       m.ShrinkExecs,
+		"known_findings_seen":     m.Known,
+		"harness_trouble":         trouble,
+		"build_s":                 buildS,
 	}
 	for k, v := range m.Extra {
 		cov["x_"+k] = v
